@@ -14,7 +14,7 @@ import xml.etree.ElementTree as ET
 SRC = "/tmp/seed/out"
 ROOT = os.path.dirname(os.path.dirname(os.path.abspath(__file__)))
 WT = "/tmp/seedwt_eval"
-EXTRA = {"C04b": ["C01"], "C09b": ["C04"], "C03b": ["C04"], "C10b": ["C03", "C04"], "C15b": ["C09"], "C09a": ["C15"], "C04a": ["C07"], "C07a": ["C04"]}
+EXTRA = {"C01e": ["C04"], "C19f": [], "C04b": ["C01"], "C09b": ["C04"], "C03b": ["C04"], "C10b": ["C03", "C04"], "C15b": ["C09"], "C09a": ["C15"], "C04a": ["C07"], "C07a": ["C04"]}
 
 
 def sh(cmd, cwd=None, timeout=3000):
@@ -68,15 +68,20 @@ def main(only=None):
         r["confirmed"] = bool(r.get("applies") and r["demo_without"] == 0 and r.get("demo_with", 0) != 0 and not r.get("tests_missing"))
         r["checks"] = {}
         if r.get("applies"):
-            for chk in [prop] + EXTRA.get(sid, []):
-                assert sh("git -C /repo status --porcelain")[1].strip() == "", "repo dirty"
-                sh(f"git -C /repo apply {d}/patch.diff")
-                try:
-                    rc, o = sh(f"./check {chk} --tier quick", cwd=ROOT, timeout=3000)
-                finally:
-                    sh("git -C /repo checkout -- .")
-                clauses = sorted({l.split("clause: ")[1].split(";")[0] for l in o.splitlines() if l.startswith("  clause: ")})
-                r["checks"][chk] = {"rc": rc, "clauses": clauses[:4]}
+            # the checks run against a scratch worktree with the patch applied (PYTHONPATH/VX_REPO), never against /repo
+            CW = "/tmp/seedwt_chk"
+            sh(f"git -C /repo worktree remove --force {CW}")
+            shutil.rmtree(CW, ignore_errors=True)
+            sh(f"git -C /repo worktree add --detach {CW} HEAD")
+            sh(f"git apply {d}/patch.diff", cwd=CW)
+            try:
+                for chk in [prop] + EXTRA.get(sid, []):
+                    rc, o = sh(f"PYTHONPATH={CW} VX_REPO={CW} ./check {chk} --tier quick", cwd=ROOT, timeout=3000)
+                    clauses = sorted({l.split("clause: ")[1].split(";")[0] for l in o.splitlines() if l.startswith("  clause: ")})
+                    r["checks"][chk] = {"rc": rc, "clauses": clauses[:4]}
+            finally:
+                sh(f"git -C /repo worktree remove --force {CW}")
+                shutil.rmtree(CW, ignore_errors=True)
         out[sid] = r
         print(sid, json.dumps(r)[:600], flush=True)
         os.makedirs(os.path.join(ROOT, "seeded"), exist_ok=True)
